@@ -5,5 +5,5 @@ CONSTANTS
   FlagSets = {}
   TagLists = {}
   Segs <- SchedSegs
-INVARIANTS LayoutG PrefixG Final HeaderOk FramingG EmitSched
+INVARIANTS LayoutG PrefixG Final HeaderOk FramingG InputsG NoLoss EmitSched
 CHECK_DEADLOCK FALSE
